@@ -1,7 +1,10 @@
 """C08 -- outputs always range over exactly the current arms, one result per context."""
+import copy
+
 from .. import gen, kernel
 from ..oracles import check_result_shape
-from ..world import Session, is_contextual
+
+from ..world import LINEAR, Session, diff, is_contextual, randomised, tol_for
 
 ID = "C08"
 LEVEL = "exploration"
@@ -124,6 +127,18 @@ def execute(case, ctx):
             if bad:
                 ctx.violate("result-shape", step, {"after": kind, "query": qk, "what": bad})
                 return
+            if qk == "expect" and P.ctxl and m and m > 1 and not randomised(cfg):
+                # "a list of m results IN ROW ORDER": for policies whose expectations are deterministic the i-th result
+                # must be the answer to the i-th row asked alone (on a copy, so the primary's streams do not move)
+                ctx.fired("probe.row_order_checked")
+                for i in range(m):
+                    alone = Session(cfg, mab=copy.deepcopy(P.mab)).mab.predict_expectations([list(Q[i])])
+                    dd = diff(alone, rq[1][i], rtol=tol_for(cfg, case["regime"]) or 0.0,
+                              atol=1e-9 if cfg["lp"][0] in LINEAR else 0.0)
+                    ctx.fired("oracle.comparisons")
+                    if dd:
+                        ctx.violate("row-order", step, {"after": kind, "row": i, "diff": dd})
+                        return
         if r[0] == "ok" and kind == "add_arm":
             ctx.fired("probe.query_right_after_add")
         if r[0] == "ok" and kind == "remove_arm":
